@@ -52,6 +52,7 @@ type xfer interface {
 	Restore(r io.Reader) (int, error)
 	ReadVal(k []byte) (interface{}, error)
 	WDR() cache.WalkDumpRestorer
+	ExpireAll()
 }
 
 type xent struct {
@@ -90,17 +91,20 @@ func (x xSM) Snapshot() (map[string]xent, []string, int)       { return snapshot
 func (x xSM) Dump(w io.Writer) (int, error)                    { return x.c.Dump(w) }
 func (x xSM) Restore(r io.Reader) (int, error)                 { return x.c.Restore(r) }
 func (x xSM) ReadVal(k []byte) (interface{}, error)            { return x.c.Read(context.Background(), k) }
+func (x xSM) ExpireAll()                                       { x.c.ExpireAll(context.Background()) }
 func (x xSM) WDR() cache.WalkDumpRestorer                      { return x.c }
 func (x xSY) Put(ctx context.Context, k []byte, v interface{}) { _ = x.c.Write(ctx, k, v) }
 func (x xSY) Snapshot() (map[string]xent, []string, int)       { return snapshotIface(x.c) }
 func (x xSY) Dump(w io.Writer) (int, error)                    { return x.c.Dump(w) }
 func (x xSY) Restore(r io.Reader) (int, error)                 { return x.c.Restore(r) }
 func (x xSY) ReadVal(k []byte) (interface{}, error)            { return x.c.Read(context.Background(), k) }
+func (x xSY) ExpireAll()                                       { x.c.ExpireAll(context.Background()) }
 func (x xSY) WDR() cache.WalkDumpRestorer                      { return x.c }
 
 func (x xOF[V]) Put(ctx context.Context, k []byte, v interface{}) { _ = x.c.Write(ctx, k, v.(V)) }
 func (x xOF[V]) Dump(w io.Writer) (int, error)                    { return x.c.Dump(w) }
 func (x xOF[V]) Restore(r io.Reader) (int, error)                 { return x.c.Restore(r) }
+func (x xOF[V]) ExpireAll()                                       { x.c.ExpireAll(context.Background()) }
 func (x xOF[V]) WDR() cache.WalkDumpRestorer                      { return x.c.WalkDumpRestorer() }
 func (x xOF[V]) ReadVal(k []byte) (interface{}, error) {
 	v, err := x.c.Read(context.Background(), k)
@@ -252,11 +256,12 @@ func keysForLens(lens []int) ([][]byte, bool) {
 }
 
 type c13Cell struct {
-	Src   string `json:"src"`
-	Dst   string `json:"dst"`
-	Lens  []int  `json:"lens"` // key lengths by dump position
-	Hops  int    `json:"hops"`
-	Strat int    `json:"strat,omitempty"` // eviction strategy of all caches involved (0 = default, most expired)
+	Src     string `json:"src"`
+	Dst     string `json:"dst"`
+	Lens    []int  `json:"lens"` // key lengths by dump position
+	Hops    int    `json:"hops"`
+	Strat   int    `json:"strat,omitempty"`   // eviction strategy of all caches involved (0 = default, most expired)
+	Expired bool   `json:"expired,omitempty"` // the source is expired with ExpireAll before it is dumped
 }
 
 func (c c13Cell) id() string { js, _ := json.Marshal(c); return string(js) }
@@ -312,6 +317,19 @@ func c13Cells(tier string) []Cell {
 		// relays through three instances and one large cache
 		cells = append(cells, Cell{ID: c13Cell{Src: p[0], Dst: p[1], Lens: []int{9, 0, 70}, Hops: 3}.id()})
 		cells = append(cells, Cell{ID: c13Cell{Src: p[0], Dst: p[1], Lens: []int{-300}, Hops: 2}.id()})
+	}
+
+	// a source that was expired by hand before the dump: the entries travel with the expiry ExpireAll gave them
+	for _, p := range c13Pairs {
+		for _, lens := range lenArrangements(2) {
+			if p[0] == "SY" && !sort.IntsAreSorted(lens) {
+				continue
+			}
+
+			cells = append(cells, Cell{ID: c13Cell{Src: p[0], Dst: p[1], Lens: lens, Hops: 1, Expired: true}.id()})
+		}
+
+		cells = append(cells, Cell{ID: c13Cell{Src: p[0], Dst: p[1], Lens: []int{9, 0, 70}, Hops: 3, Expired: true}.id()})
 	}
 
 	// caches configured with LRU / LFU eviction (appended: the indices of the cells above stay what they were)
@@ -424,6 +442,23 @@ func c13One(cc c13Cell, keys [][]byte, vals []interface{}, exp []bool, perm int)
 			if order[i] != string(k) {
 				return "", "order-not-realised", ops
 			}
+		}
+	}
+
+	if cc.Expired {
+		at := vclock.NowQuiet().UnixNano()
+
+		src.ExpireAll()
+		ops++
+
+		for k, w := range want {
+			w.E = at
+			want[k] = w
+		}
+
+		have, _, _ = src.Snapshot()
+		if msg := compareSnap("source cache (Walk) after ExpireAll vs entries written", want, have); msg != "" {
+			return "source-content", msg, ops
 		}
 	}
 
@@ -662,7 +697,7 @@ func init() {
 		Cells: c13Cells, Run: c13Run,
 		Rule: "all ordered sequences of <=3 (quick) / <=4 (thorough) entries with distinct key lengths {0,1,2,9,70} x value {nil,0,\"\",7,\"x\",S{},S{1,\"b\"}} (typed zero/populated for ShardedMapOf) x expiry {never,set}; " +
 			"the dump order is forced: ShardedMap sources through keys with increasing shard index, SyncMap sources through every permutation of the shimmed Range; " +
-			"pairings SM->SM, SM->SY, SY->SM, SY->SY, ShardedMapOf[int|string|struct] -> same; 3-hop relays and a 300-entry cache; " +
+			"pairings SM->SM, SM->SY, SY->SM, SY->SY, ShardedMapOf[int|string|struct] -> same; 3-hop relays and a 300-entry cache; caches with default / LRU / LFU eviction configuration; sources expired with ExpireAll before the dump; " +
 			"oracle: both calls report n, Walk of the target equals Walk of the source as (key bytes, value, ExpireAt) sets, no key visited twice, Read agrees",
 		Assumptions: []string{
 			"gob-lossy value shapes (empty non-nil slices/maps, pointers to zero) are excluded on purpose: the statement is about gob-registered values that gob itself round-trips",
